@@ -31,9 +31,6 @@ func (obj Symbol) Readably(b []byte, p *Printer) []byte {
 	if len(obj) == 0 {
 		return append(b, '|', '|')
 	}
-	if obj[0] == ':' {
-		return append(b, p.caseName(string(obj))...)
-	}
 	for i, c := range []byte(obj) {
 		// The reader takes & as the first character of a token (&optional,
 		// &rest, ...) but not inside one.
